@@ -77,7 +77,7 @@ def base_case(draw, tier, data_kind=None, depths=vs.DEPTHS_STREAM, min_chans=1, 
     eff = n - start if nsamps is None else nsamps
     gulp = draw(st.one_of(st.integers(1, eff + 3), st.integers(1, max(1, eff // 2))))
     return {"layout": lay, "start": start, "nsamps": nsamps, "gulp": gulp, "prior": draw(vs.prior_use(n)),
-            "default_names": draw(st.sampled_from([False, False, True])), "np_ints": draw(st.sampled_from([False, False, False, True])), "omit_defaults": draw(st.sampled_from([False, False, True])),
+            "default_names": draw(st.sampled_from([False, False, True])), "np_ints": draw(st.sampled_from([False, False, False, True])), "omit_defaults": draw(st.sampled_from([False, False, True])), "debug_log": draw(st.sampled_from([False, False, False, False, True])),
             "fch1": draw(st.sampled_from([1400.0, 800.0, 1500.5])), "foff": draw(st.sampled_from([-1.0, -1.0, 1.0])) * draw(st.sampled_from([1.0, 4.0, 0.5, 10.0]))}  # either band orientation
 
 
@@ -122,7 +122,8 @@ class Setup:
         cwd = os.getcwd()
         try:
             os.chdir(self.dir)  # default output names are relative to the working directory
-            ret = fn()
+            with vs.debug_logging(self.case.get("debug_log")):
+                ret = fn()
         except Exception as exc:  # noqa: BLE001
             raise Violation(f"{name}:raised:{type(exc).__name__}", f"{self.ctxt}: {exc!r}") from exc
         finally:
